@@ -92,6 +92,9 @@ theorem source_msShutdown : GeneratedSrc.msShutdown = ExpectedSrc.msShutdown := 
 /-! ### the timeout a configuration file asks for is the one the executor gets (defaulted only when absent or non-positive) -/
 theorem source_cfgRead : GeneratedSrc.cfgRead = ExpectedSrc.cfgRead := by rfl
 
+/-! ### what Executor.Shutdown calls on the way out must return -/
+theorem source_mrShutdown : GeneratedSrc.mrShutdown = ExpectedSrc.mrShutdown := by rfl
+
 /-! ### influence closure: the pinned functions, and every function of the repository that writes a struct field or package
 variable they read, are unchanged (digests regenerated from /repo on every run; a difference names the functions) -/
 theorem closure_unchanged : GeneratedClo.C17 = ExpectedClo.C17 := by rfl
